@@ -141,16 +141,18 @@ def run_rows(chk, rows, configs, matcher, rule_prefix, tier, header_configs=None
             iname = inst if hc_name == 'default' else '%s@%s' % (inst, hc_name)
             chk.expect(e.a[0].x == res_slot, R2, iname + ':dest',
                        'result is written to %s, the new top of the stack is %s' % (e.a[0].x, res_slot), site, e.loc())
-            probs, decided = matcher(row, e.a[1], ops, dict(tu=tu, res_t=res_t, config=hc_name))
+            mres = matcher(row, e.a[1], ops, dict(tu=tu, res_t=res_t, config=hc_name))
+            probs, decided = mres[0], mres[1]
+            R3x = mres[2] if len(mres) > 2 else R3
             if not decided:
                 chk.note('%s [%s]: descriptor not decided (non-builtin fallback implementation)' % (nm, hc_name))
                 continue
             if probs:
                 for p in probs:
-                    chk.fail(R3, iname, '%s: %s   [template: %s]' % (nm, p, text.strip()), site, e.loc(),
+                    chk.fail(R3x, iname, '%s: %s   [template: %s]' % (nm, p, text.strip()), site, e.loc(),
                              template=text.strip())
             else:
-                chk.ok(R3, iname, repr(e))
+                chk.ok(R3x, iname, repr(e)[:400])
     return dict(tus=tus, it=it, vts=vts, tabs=tabs)
 
 
